@@ -508,11 +508,24 @@ fn runtype_any_of_discriminated(
                         Runtype::object(vs.iter().map(|it| (it.0.clone(), it.1.clone())).collect())
                     })
                     .collect::<Vec<_>>();
+                // every branch admits this discriminator value: dispatching again on the same
+                // union would never terminate, so the branches are tried one by one instead
+                let all_branches_match = cases.len() > 1 && cases.len() == object_vs.len();
                 let schema = if cases.len() == 1 {
                     maybe_named_ref(&cases[0], named_schemas, ctx)
                         .unwrap_or_else(|| cases[0].clone())
                 } else {
                     Runtype::any_of(cases)
+                };
+                let printed = match &schema.kind {
+                    RuntypeKind::AnyOf(vs) if all_branches_match => runtype_union_or_intersection(
+                        "AnyOfRuntype",
+                        vs,
+                        named_schemas,
+                        ctx,
+                        &schema,
+                    ),
+                    _ => print_runtype(&schema, named_schemas, ctx),
                 };
 
                 PropOrSpread::Prop(
@@ -522,7 +535,7 @@ fn runtype_any_of_discriminated(
                             value: current_key.clone().into(),
                             raw: None,
                         }),
-                        value: print_runtype(&schema, named_schemas, ctx).into(),
+                        value: printed.into(),
                     })
                     .into(),
                 )
@@ -552,11 +565,24 @@ fn runtype_any_of_discriminated(
                         Runtype::object(vs.iter().map(|it| (it.0.clone(), it.1.clone())).collect())
                     })
                     .collect::<Vec<_>>();
+                // every branch admits this discriminator value: dispatching again on the same
+                // union would never terminate, so the branches are tried one by one instead
+                let all_branches_match = cases.len() > 1 && cases.len() == object_vs.len();
                 let schema = if cases.len() == 1 {
                     maybe_named_ref(&cases[0], named_schemas, ctx)
                         .unwrap_or_else(|| cases[0].clone())
                 } else {
                     Runtype::any_of(cases)
+                };
+                let printed = match &schema.kind {
+                    RuntypeKind::AnyOf(vs) if all_branches_match => runtype_union_or_intersection(
+                        "AnyOfRuntype",
+                        vs,
+                        named_schemas,
+                        ctx,
+                        &schema,
+                    ),
+                    _ => print_runtype(&schema, named_schemas, ctx),
                 };
 
                 PropOrSpread::Prop(
@@ -566,7 +592,7 @@ fn runtype_any_of_discriminated(
                             value: current_key.clone().into(),
                             raw: None,
                         }),
-                        value: print_runtype(&schema, named_schemas, ctx).into(),
+                        value: printed.into(),
                     })
                     .into(),
                 )
